@@ -811,7 +811,10 @@ class Context(MetadataContextMixin, object):
 
         state.set_volatile(is_volatile or state.is_volatile())
 
-        cache.store_metadata(state.metadata)
+        if not state.is_volatile():
+            # the final metadata of a volatile result (e.g. evaluated with extra parameters) is not filed as 'ready':
+            # it would describe - until the entry is removed - the data cached under the same key by a plain evaluation
+            cache.store_metadata(state.metadata)
         return state
 
     def store(self):
